@@ -70,8 +70,9 @@ def write(pid, mod, plan, total, tier, seed, wall, n_new):
     probs = validate(ev)
     if probs:
         print('HARNESS-WARNING evidence for %s does not validate: %s' % (pid, probs))
-    os.makedirs(os.path.join(HERE, 'evidence'), exist_ok=True)
-    path = os.path.join(HERE, 'evidence', pid + '.json')
+    edir = os.environ.get('VT_EVIDENCE_DIR') or os.path.join(HERE, 'evidence')
+    os.makedirs(edir, exist_ok=True)
+    path = os.path.join(edir, pid + '.json')
     with open(path + '.tmp', 'w') as f:
         json.dump(ev, f, indent=1, ensure_ascii=False, default=str)
         f.write('\n')
